@@ -90,6 +90,9 @@ def serdeStep (s : DState) : List String → Option (DState × String)
       match kind with
       | "green" => SourceFacts.greenTokenMarkersUnconditional
       | "resolver" => accepted F (m == "sync") (b ds) (b dy) (b rs) (b ry)
+      | "text" => SourceFacts.otherUnsafeMarkerImpls == 0 && textOk F (b ds) (b dy) (b ry)
+      | "textgeneric" => SourceFacts.otherUnsafeMarkerImpls == 0 && textOk F (b ds) (b dy) (b ry)
+      | "kindfree" => kindFreeOk F SourceFacts.nodeMarkersConstrainS (m == "sync") (b ds) (b dy)
       | _ => handleOk F (m == "sync") (b ds) (b dy)
     some (s, if ok then "accept" else "reject")
   | _ => none
